@@ -82,35 +82,38 @@ char *strtok_r(char *s, const char *delim, char **save)
  * signature (n == 256) is copied faithfully; for the 64-byte argument name only the terminator is placed
  * and the characters before it are arbitrary (no clause of these groups reads a name; copying them would be
  * a dozen writes at a symbolic offset of the 1.7 KB definition per argument). */
-static int c18_snprintf(char *s, size_t n, const char *fmt, const char *arg)
+static int c18_snprintf_s(char *s, size_t n, const char *fmt, const char *arg)
 {
-	if (fmt[0] == '%' && fmt[1] == 's' && fmt[2] == '\0') {
-		size_t len = 0;
-		for (int k = 0; k < C18_SIGN; k++) {
-			if (arg[len] == '\0')
-				break;
-			len++;
-		}
-		__CPROVER_assert(arg[len] == '\0', "snprintf model: string within the bound");
-		if (n > 0) {
-			size_t m = len < n - 1 ? len : n - 1;
-			if (n == 256) {
-				for (size_t i = 0; i < C18_SIGN; i++) {
-					if (i >= m)
-						break;
-					s[i] = arg[i];
-				}
-			} else if (m > 0) {
-				__CPROVER_havoc_slice(s, m);
-			}
-			s[m] = '\0';
-		}
-		return (int) len;
+	__CPROVER_assert(fmt[0] == '%' && fmt[1] == 's' && fmt[2] == '\0', "snprintf model: a string is printed with %s");
+	size_t len = 0;
+	for (int k = 0; k < C18_SIGN; k++) {
+		if (arg[len] == '\0')
+			break;
+		len++;
 	}
-	return verif_snprintf(s, n);
+	__CPROVER_assert(arg[len] == '\0', "snprintf model: string within the bound");
+	if (n > 0) {
+		size_t m = len < n - 1 ? len : n - 1;
+		if (n == 256) {
+			for (size_t i = 0; i < C18_SIGN; i++) {
+				if (i >= m)
+					break;
+				s[i] = arg[i];
+			}
+		} else if (m > 0) {
+			__CPROVER_havoc_slice(s, m);
+		}
+		s[m] = '\0';
+	}
+	return (int) len;
 }
+/* integer arguments (print path, not reachable from these groups): as the prelude */
+static int c18_snprintf_u(char *s, size_t n, const char *fmt, uint64_t a) { (void) fmt; (void) a; return verif_snprintf(s, n); }
+static int c18_snprintf_i(char *s, size_t n, const char *fmt, int64_t a) { (void) fmt; (void) a; return verif_snprintf(s, n); }
 #undef snprintf
-#define snprintf(s, n, fmt, a) c18_snprintf((s), (n), (fmt), (const char *) (uintptr_t) (a))
+#define snprintf(s, n, fmt, a) _Generic((a), char *: c18_snprintf_s, const char *: c18_snprintf_s, \
+	uint8_t: c18_snprintf_u, uint16_t: c18_snprintf_u, uint32_t: c18_snprintf_u, uint64_t: c18_snprintf_u, \
+	default: c18_snprintf_i)((s), (n), (fmt), (a))
 
 #include "ev_spec.c"         /* the real /repo/src/emu/ev_spec.c */
 
